@@ -840,15 +840,46 @@ F4_WITNESS_OPS = [
 ]
 
 
-def gen_ops(rng, nops: int, honest: bool):
-    """Random histories over 3 files. honest=True: every write gets a fresh mtime (monotone clock)."""
+LINK_WITNESS_OPS = [   # a dependency reached through a symbolic link: the target is edited, the link is untouched; then re-pointed
+    {"op": "write", "f": 0, "content": [118, 49], "mtime_ns": 1_600_000_000 * NS},
+    {"op": "write", "f": 1, "content": [118, 49], "mtime_ns": 1_600_000_050 * NS},
+    {"op": "write", "f": 2, "content": [119], "mtime_ns": 1_600_000_060 * NS},
+    {"op": "symlink", "l": 0, "f": 0, "rel": False, "lmtime_ns": 1_500_000_000 * NS},
+    {"op": "state", "f": 0, "l": 0, "kind": "path", "sp": 0},
+    {"op": "state", "f": 0, "kind": "path", "sp": 0},
+    {"op": "write", "f": 0, "content": [118, 50], "mtime_ns": 1_600_000_100 * NS},     # edit the target, fresh mtime
+    {"op": "state", "f": 0, "l": 0, "kind": "path", "sp": 0},
+    {"op": "state", "f": 0, "l": 0, "kind": "pickle", "sp": 1},
+    {"op": "symlink", "l": 0, "f": 1, "rel": True, "lmtime_ns": 1_500_000_000 * NS},   # re-point: other file, other bytes
+    {"op": "state", "f": 1, "l": 0, "kind": "path", "sp": 0},
+    {"op": "symlink", "l": 0, "f": 2, "rel": False, "lmtime_ns": 1_500_000_000 * NS},  # re-point: third file
+    {"op": "state", "f": 2, "l": 0, "kind": "task", "sp": 2},
+    {"op": "write", "f": 0, "content": [119], "mtime_ns": 1_600_000_200 * NS},
+    {"op": "symlink", "l": 0, "f": 0, "rel": False, "lmtime_ns": 1_500_000_000 * NS},  # re-point: other file, equal bytes
+    {"op": "state", "f": 0, "l": 0, "kind": "path", "sp": 0},
+]
+
+
+def gen_ops(rng, nops: int, honest: bool, links: bool = False):
+    """Random histories over 3 files (and, with links=True, 2 symbolic links to them).
+    honest=True: every write gets a fresh mtime (monotone clock)."""
     contents = [[], [0], [97], [97, 98], [98, 97], list(range(256)), [255] * 40, [10], [13, 10]]
     times = [T0 - 86400 * NS * 400, T0, T0 + 1, T0 + NS, T0 + 3 * NS + 500_000_000, 4_000_000_000 * NS, 1 * NS]
     ops, clock = [], T0 + 10 * NS
     alive: dict = {}
+    link_to: dict = {}
+    ltimes = [T0 - 86400 * NS * 900, T0 - 5 * NS, None]
     for _ in range(nops):
         f = rng.randrange(3)
         r = rng.random()
+        if links and rng.random() < 0.5:
+            k = rng.randrange(2)
+            if k not in link_to or rng.random() < 0.25:     # create / re-point (the link's own time is unrelated to the targets')
+                ops.append({"op": "symlink", "l": k, "f": f, "rel": rng.random() < 0.5, "lmtime_ns": rng.choice(ltimes)})
+                link_to[k] = f
+            else:
+                ops.append({"op": "state", "f": link_to[k], "l": k, "kind": rng.choice(["path", "path", "pickle", "task"]), "sp": rng.randrange(3)})
+            continue
         if r < 0.30 or f not in alive:
             c = rng.choice(contents) if rng.random() < 0.7 else [rng.randrange(256) for _ in range(rng.randint(1, 60))]
             if honest:
@@ -872,6 +903,8 @@ def gen_ops(rng, nops: int, honest: bool):
             ops.append({"op": "state", "f": f, "kind": rng.choice(["path", "path", "pickle", "task"]), "sp": rng.randrange(4)})
     for f in list(alive):
         ops.append({"op": "state", "f": f, "kind": "path", "sp": rng.randrange(4)})
+    for k, f in link_to.items():
+        ops.append({"op": "state", "f": f, "l": k, "kind": "path", "sp": rng.randrange(3)})
     return ops
 
 
@@ -879,6 +912,7 @@ def check_ops(ctx, ops, obs, seq_id):
     """Oracle: same bytes ⇔ same state, over all observations of one process. Returns the annotated observations."""
     files: dict = {}
     mtimes: dict = {}
+    links: dict = {}
     k = 0
     seen_by_content: dict = {}
     seen_by_state: dict = {}
@@ -893,10 +927,13 @@ def check_ops(ctx, ops, obs, seq_id):
             mtimes[op["f"]] = op["mtime_ns"]
         elif o == "remove":
             files.pop(op["f"], None)
+        elif o == "symlink":
+            links[op["l"]] = op["f"]
         else:
             ob = obs[k]
             k += 1
-            content = files.get(op["f"])
+            fidx = links.get(op["l"]) if op.get("l") is not None else op["f"]   # the file the spelling denotes (through the link)
+            content = files.get(fidx)
             st = ob["state"]
             replay = {"stream": "ops", "ops": ops[:pos + 1]}
             out.append((op, ob, content))
@@ -914,10 +951,11 @@ def check_ops(ctx, ops, obs, seq_id):
             stale = [h for h in history if h[0] == ob["path"] and h[1] == ob["mtime"] and h[2] != content and h[3] == st]
             fid = "F4" if stale else None
             if content in seen_by_content and seen_by_content[content] != st:
-                ctx.violation(f"state-content: the same {len(content)} bytes got two different states (path spelling {op['sp']}, mtime {mtimes.get(op['f'])})",
+                ctx.violation(f"state-content: the same {len(content)} bytes got two different states (path spelling {op['sp']}{' through a symlink' if op.get('l') is not None else ''}, mtime {mtimes.get(fidx)})",
                               replay, finding=fid)
             elif st in seen_by_state and seen_by_state[st] != content:
-                ctx.violation("state-sep: different bytes, same state" + (" (bytes changed under an identical path and mtime)" if stale else ""),
+                ctx.violation("state-sep: different bytes, same state" + (" (bytes changed under an identical path and mtime)" if stale else "")
+                              + (" (file named through a symlink)" if op.get("l") is not None else ""),
                               replay, finding=fid)
             else:
                 seen_by_content.setdefault(content, st)
@@ -948,6 +986,9 @@ def stream_states(ctx):
     seqs = [list(F4_WITNESS_OPS)]
     for i in range(nseq):
         seqs.append(gen_ops(ctx.rng, ctx.rng.randint(12, 40), honest=(i % 2 == 0)))
+    seqs.append(list(LINK_WITNESS_OPS))
+    for i in range(max(2, nseq // 2)):      # the same histories with files also named through symbolic links
+        seqs.append(gen_ops(ctx.rng, ctx.rng.randint(16, 44), honest=(i % 2 == 0), links=True))
     root = common.scratch_dir("c12ops")
     try:
         reqs = [{"mode": "ops", "root": str(root / f"s{i}"), "ops": ops} for i, ops in enumerate(seqs)]
@@ -958,7 +999,8 @@ def stream_states(ctx):
     for i, (ops, obs) in enumerate(zip(seqs, results)):
         annotated = check_ops(ctx, ops, obs, i)
         ctx.dist["state_observations"] += len(annotated)
-        if i >= 1 and (i - 1) % 2 == 0:
+        ctx.dist["state_observations_through_symlink"] += sum(1 for op, _, _ in annotated if op.get("l") is not None)
+        if 1 <= i <= nseq and (i - 1) % 2 == 0 or i > nseq + 1 and (i - nseq - 2) % 2 == 0:
             ctx.dist["state_honest_sequences"] += 1
         if ctx.use_model:
             model_ops(ctx, ops, annotated)
@@ -995,19 +1037,20 @@ def collect_decls(root: str, base: str):
     return decls
 
 
+def corpus_collect_decls(root: str, base: str):
+    """Witnesses of repaired findings (corpus/C12/*.json, stream "collect"), re-rooted; they run with every campaign."""
+    out = []
+    for f in sorted((common.VERIF / "corpus" / "C12").glob("*.json")):
+        obj = json.loads(f.read_text())
+        if obj.get("stream") == "collect":
+            out += [dict(d, sp=d["sp"].replace("@BASE", base).replace("@ROOT", root)) for d in obj["decls"]]
+    return out
+
+
 def collect_identity(base: str, d):
     p = d["sp"] if d["sp"].startswith("/") else base + "/" + d["sp"]
     n = os.path.normpath(p)
     return ("dir", n, d["pattern"]) if d["form"] == "dirnode" else ("file", n)
-
-
-def f17_class(d, res) -> bool:
-    """A node *instance* (PathNode/PickleNode/DirectoryNode) declared with an absolute, lexically unnormalised path
-    that collection left as spelled."""
-    if d["form"] == "plain" or not d["sp"].startswith("/"):
-        return False
-    spelled = str(PurePosixPath(d["sp"]))
-    return spelled != os.path.normpath(spelled) and res.get("path") == spelled
 
 
 def check_collect(ctx, base, decls, results, count=True):
@@ -1025,11 +1068,9 @@ def check_collect(ctx, base, decls, results, count=True):
         ref = members[0]
         for i in members[1:]:
             if results[i]["sig"] != results[ref]["sig"]:
-                fid = "F17" if (f17_class(decls[i], results[i]) != f17_class(decls[ref], results[ref])
-                                or (f17_class(decls[i], results[i]) and results[i]["path"] != results[ref]["path"])) else None
                 ctx.violation(f"collect-split: {decls[ref]['form']}:{decls[ref]['sp']!r} and {decls[i]['form']}:{decls[i]['sp']!r} "
                               f"name the same {ident[0]} {ident[1]!r} but become different DAG nodes ({results[ref]['path']!r} / {results[i]['path']!r})",
-                              {"stream": "collect", "decls": [decls[ref], decls[i]]}, finding=fid)
+                              {"stream": "collect", "decls": [decls[ref], decls[i]]})   # F17 (absolute node paths) is repaired: c8f94b3
     for key, members in by_sig.items():
         ids = {collect_identity(base, decls[i]) for i in members}
         if len(ids) > 1:
@@ -1064,7 +1105,7 @@ def stream_collect(ctx):
             (base / sub).mkdir(parents=True, exist_ok=True)
         for f in ("f.txt", "d/f.txt", "d/g.txt", "e/f.txt"):
             (base / f).write_text(f)
-        decls = collect_decls(str(root), str(base))
+        decls = corpus_collect_decls(str(root), str(base)) + collect_decls(str(root), str(base))   # corpus first (F17, fixed: must pass)
         results = run_worker({"mode": "collect", "root": str(root), "base": str(base), "decls": decls}, ctx.rng.randrange(1, 2 ** 31))
     finally:
         shutil.rmtree(root, ignore_errors=True)
@@ -1113,6 +1154,30 @@ def task_copy(inp: Path = Path("in.bin"), out: Annotated[Path, Product] = Path("
 '''
 
 
+TASK_LINK = TASK_FILE.replace('Path("in.bin")', 'Path("in.lnk")')     # the dependency is declared through a symbolic link
+
+
+def link_scenarios(rng):
+    """kind "link": in.lnk -> data<target>.bin. Each step optionally rewrites one data file (content, mtime) and names the
+    file the link must point to; the link is re-created only when its target changes (otherwise it is left untouched)."""
+    t = T0
+    return [
+        {"kind": "link", "steps": [    # edit the target (fresh mtimes), link untouched; touch only; identical rewrite
+            {"target": 0, "write": 0, "content": [118, 49], "mtime_ns": t},
+            {"target": 0, "write": 0, "content": [118, 50], "mtime_ns": t + 60 * NS},
+            {"target": 0, "write": 0, "content": [118, 50], "mtime_ns": t + 120 * NS},
+            {"target": 0, "write": 0, "content": [118, 51], "mtime_ns": t + 180 * NS}]},
+        {"kind": "link", "steps": [    # re-point to another file: different bytes, then equal bytes, then back
+            {"target": 0, "write": 0, "content": [97], "mtime_ns": t},
+            {"target": 1, "write": 1, "content": [98], "mtime_ns": t + 30 * NS},
+            {"target": 2, "write": 2, "content": [98], "mtime_ns": t + 90 * NS},
+            {"target": 0, "write": None, "content": None, "mtime_ns": None}]},
+        {"kind": "link", "steps": [{"target": rng.randrange(2), "write": rng.randrange(2),
+                                    "content": [rng.randrange(256) for _ in range(rng.randint(1, 30))], "mtime_ns": t + (i + 1) * 40 * NS + rng.randrange(1000)}
+                                   for i in range(4)]},
+    ]
+
+
 def value_scenarios(rng):
     sc = [
         {"kind": "value", "values": [(1, 23), (1, 23), (12, 3), (1, 24)]},                 # F3 in the third build
@@ -1153,6 +1218,28 @@ def run_scenario(sc, hashseed):
                 r = run_worker({"mode": "build", "root": str(root)}, hashseed)
                 r["product"] = (root / "out.txt").read_text() if (root / "out.txt").exists() else None
                 builds.append(r)
+        elif sc["kind"] == "link":
+            (root / "task_m.py").write_text(TASK_LINK)
+            for i in range(3):      # all data files exist from the start, with distinct old mtimes
+                (root / f"data{i}.bin").write_bytes(b"init%d" % i)
+                os.utime(root / f"data{i}.bin", ns=((T0 - (9 - i) * 1000 * NS),) * 2)
+            cur_target = None
+            for st in sc["steps"]:
+                if st["write"] is not None:
+                    (root / f"data{st['write']}.bin").write_bytes(bytes(st["content"]))
+                    os.utime(root / f"data{st['write']}.bin", ns=(st["mtime_ns"], st["mtime_ns"]))
+                if st["target"] != cur_target:
+                    lp = root / "in.lnk"
+                    if lp.is_symlink():
+                        lp.unlink()
+                    lp.symlink_to(f"data{st['target']}.bin")
+                    os.utime(lp, ns=((T0 - 5000 * NS),) * 2, follow_symlinks=False)   # the link's own time never moves
+                    cur_target = st["target"]
+                r = run_worker({"mode": "build", "root": str(root)}, hashseed)
+                r["product"] = list((root / "out.bin").read_bytes()) if (root / "out.bin").exists() else None
+                r["dep_bytes"] = list((root / "in.lnk").read_bytes())
+                r["dep_mtime_ns"] = (root / "in.lnk").stat().st_mtime_ns
+                builds.append(r)
         else:
             (root / "task_m.py").write_text(TASK_FILE)
             for st in sc["steps"]:
@@ -1174,7 +1261,12 @@ def check_scenario(ctx, sc, builds, sid):
     prev = _UNSET         # the input as of the last execution (what the recorded state describes)
     seen_mt: dict = {}    # mtime -> bytes the file had when a build first saw it under that mtime
     for i, b in enumerate(builds):
-        cur = sc["values"][i] if sc["kind"] == "value" else bytes(sc["steps"][i]["content"])
+        if sc["kind"] == "value":
+            cur = sc["values"][i]
+        elif sc["kind"] == "link":
+            cur = bytes(b["dep_bytes"])            # the bytes the declared path denotes (through the link) at build time
+        else:
+            cur = bytes(sc["steps"][i]["content"])
         replay = {"stream": "e2e", "scenario": _sc_json(sc), "upto": i + 1}
         ctx.case(("e2e", sid, i), i > 0)
         outc = b["outcomes"].get(name)
@@ -1188,7 +1280,7 @@ def check_scenario(ctx, sc, builds, sid):
             fid = "F3" if (prev is not _UNSET and f3_class(prev, cur) and f3_class(cur, prev)) else None
             what = f"the hashed value changed ({show(prev)} -> {show(cur)})"
         else:
-            mt = sc["steps"][i]["mtime_ns"]
+            mt = b["dep_mtime_ns"] if sc["kind"] == "link" else sc["steps"][i]["mtime_ns"]   # what stat() of the declared path sees
             demand = prev is _UNSET or prev != cur
             must_skip = not demand
             fid = "F4" if (mt in seen_mt and seen_mt[mt] != cur) else None
@@ -1200,7 +1292,7 @@ def check_scenario(ctx, sc, builds, sid):
             ctx.violation(f"e2e-rerun: build {i + 1}: nothing Python can tell apart changed (touch / identical rewrite / equal value) but the task re-executed", replay)
         if executed:
             prev = cur
-            if sc["kind"] == "file" and b["product"] != list(cur + b"!"):
+            if sc["kind"] in ("file", "link") and b["product"] != list(cur + b"!"):
                 ctx.violation(f"e2e-product: build {i + 1} executed but the product does not hold the current bytes", replay)
 
 
@@ -1217,9 +1309,9 @@ def _sc_from_json(j):
 
 
 def stream_e2e(ctx):
-    scs = value_scenarios(ctx.rng) + file_scenarios(ctx.rng)
+    scs = value_scenarios(ctx.rng) + file_scenarios(ctx.rng) + link_scenarios(ctx.rng)
     if ctx.thorough or ctx.budget > 1:
-        scs += value_scenarios(ctx.rng)[5:] + file_scenarios(ctx.rng)[2:]
+        scs += value_scenarios(ctx.rng)[5:] + file_scenarios(ctx.rng)[2:] + link_scenarios(ctx.rng)[2:]
     seeds = [ctx.rng.randrange(1, 2 ** 31) for _ in scs]
     with ThreadPoolExecutor(max_workers=min(12, len(scs))) as ex:
         results = list(ex.map(lambda a: run_scenario(*a), zip(scs, seeds)))
